@@ -194,6 +194,10 @@ func runC20(c *core.Ctx) {
 					for round := 0; round < 3; round++ {
 						gb := pool.Get()
 						wantLen := g.ch * g.l
+						if gb.Channels() != g.ch {
+							c.Violate("Pool["+t.Name+"]|shape", cid, fmt.Sprintf("round %d: Get on a degenerate allocator with %d channels returned a buffer with %d channels", round, g.ch, gb.Channels()), d)
+							return
+						}
 						if gb.RawLen() != wantLen || gb.RawCap() != g.ch*g.k {
 							c.Violate("Pool["+t.Name+"]|shape", cid, fmt.Sprintf("round %d: Get on a degenerate allocator returned %v", round, mon.ShapeOf(gb)), d)
 							return
@@ -209,6 +213,13 @@ func runC20(c *core.Ctx) {
 							}
 						}
 						gb.AppendSample(mon.Canary(t.TypeInfo, round, 5))
+						if round == 0 {
+							// an Append of an EMPTY buffer with another channel count, which
+							// the library has to refuse, must leave the pooled buffer as it is
+							other := t.Alloc(signal.Allocator{Channels: g.ch + 2})
+							core.Guard(func() { gb.Append(other) })
+							c.Obs("refused_appends_on_degenerate_pool_buffers", 1)
+						}
 						if round == 1 {
 							// a foreign, filled buffer of another total capacity is offered
 							// to the pool in between: whatever Put answers, the pool keeps
